@@ -60,6 +60,8 @@ def _build(ntype: str):
         cfg = dict(start_up_duration=0)
         if ntype == "router":
             cfg["num_ports"] = 2
+        else:
+            cfg["airspace"] = net.airspace
         a = mk_node(ntype, "node_a", **cfg)
         a.power_on()
         net.add_node(a)
